@@ -70,6 +70,9 @@ impl Check for C06Check {
         let infinite = st.workload.chance(1, 5);
         let mut o = Opts::finite_small();
         o.infinite = infinite;
+        // disequalities in a third of the cases; answers are then compared by their terms only
+        // (what the attached constraints mean is C02's business)
+        o.neq = st.workload.chance(1, 3);
         if tier == Tier::Thorough && st.workload.chance(1, 3) {
             o.max_depth = 4;
             o.max_width = 4;
@@ -89,8 +92,8 @@ impl Check for C06Check {
         let oracle = if refint::is_infinite(&program) { "prefix-soundness" } else { "finite-multiset" };
         if oracle == "prefix-soundness" {
             // a starved or unproductive prefix is C07's business: do not burn the clock on it
-            cfg.quanta_budget = 12_000;
-            cfg.work_cap = 400_000;
+            cfg.quanta_budget = 4_000;
+            cfg.work_cap = 120_000;
         }
         Case {
             property: "C06".into(),
@@ -106,8 +109,7 @@ impl Check for C06Check {
             && !case.program.any(|g| {
                 matches!(
                     g,
-                    G::Neq(..)
-                        | G::Conda(_)
+                    G::Conda(_)
                         | G::Condu(_)
                         | G::Onceo(_)
                         | G::Project(..)
